@@ -19,7 +19,10 @@ PLAN={  # seeded change -> checks to try (own property first)
  'r6-A1':['C03','C13'], 'r6-A2':['C04','C03','C14'], 'r6-A3':['C13'], 'r6-A4':['C17','C03'],
  'r6-B1':['C09'], 'r6-B2':['C14'], 'r6-B3':['C15','C06'], 'r6-B4':['C06'],
  'r6-C1':['C01','C10'], 'r6-C2':['C07'], 'r6-C3':['C06','C08'], 'r6-C4':['C16'],
+ 'r7-A1':['C10','C01'], 'r7-A2':['C02','C11'], 'r7-A3':['C15','C13'], 'r7-A4':['C05','C14'],
+ 'r7-B1':['C12','C01'], 'r7-B2':['C11'], 'r7-B3':['C14'], 'r7-B4':['C17'],
 }
+R7={'A1':'C10','A2':'C02','A3':'C15','A4':'C05','B1':'C12','B2':'C11','B3':'C14','B4':'C17'}
 R6={'A1':'C03','A2':'C04','A3':'C13','A4':'C17','B1':'C09','B2':'C14','B3':'C15','B4':'C06','C1':'C01','C2':'C07','C3':'C08','C4':'C16'}
 R5={'A1':'C02','A2':'C02','A3':'C05','A4':'C16','B1':'C06','B2':'C14','B3':'C08','B4':'C11','C1':'C13','C2':'C10','C3':'C12','C4':'C07'}
 R4={'A1':'C01','A2':'C05','A3':'C15','A4':'C14','B1':'C03','B2':'C04','B3':'C13','B4':'C17','C1':'C07','C2':'C11','C3':'C12','C4':'C09'}
@@ -37,6 +40,7 @@ for name in names:
     if name.startswith('r4-'): prop=R4.get(prop,prop)
     if name.startswith('r5-'): prop=R5.get(prop,prop)
     if name.startswith('r6-'): prop=R6.get(prop,prop)
+    if name.startswith('r7-'): prop=R7.get(prop,prop)
     checks=PLAN.get(name,[prop] if re.match(r'^C\d\d$',prop) else [])
     meta_path=os.path.join(d,'meta.json')
     meta=json.load(open(meta_path)) if os.path.exists(meta_path) else {}
